@@ -13,7 +13,9 @@ ASSUMPTIONS = ["HMAC verification, base64 and JSON decoding of the JWT (golang-j
                "uuid codes are unguessable; TLS/proxies in front of the relay are out of scope"]
 P = "Relay.Props.C01"
 THEOREMS = [(f"Access.{n}", P) for n in ["session_ok_iff", "session_refused_no_effect", "session_code_bound", "ws_join_iff",
-                                         "ws_refused_no_join", "client_bound_to_token", "no_code_no_join", "joined_only_via_valid_session"]]
+                                         "ws_refused_no_join", "client_bound_to_token", "no_code_no_join", "joined_only_via_valid_session", "valid_iff", "ws_refused_info"]] + \
+           [("Relay.member_provenance", "Relay.Props.C01Prov"), ("Relay.code_provenance", "Relay.Props.C01Prov"), ("Relay.prov_run", "Relay.Props.C01Prov"),
+            ("Hub.unjoined_never_relays", "Relay.Props.C03"), ("Relay.status_lists_exactly_members", "Relay.Props.C14Members")]
 
 
 def modes(tier):
